@@ -6,7 +6,7 @@ The executor forks on these; the spec evaluator requires them to be absent / ign
 Concrete Python values are represented by themselves.
 """
 import z3
-from .sorts import (Sym, SInt, SBool, SBytes, SStr, SVal, SVL, SF64, Val, VL, Bytes, Int, Bool, F64,
+from .sorts import (HeapRef, Sym, SInt, SBool, SBytes, SStr, SVal, SVL, SF64, Val, VL, Bytes, Int, Bool, F64,
                     seq_lit, fresh, typeof, type_id, TYPE_ID, wrap_sort)
 
 
@@ -110,7 +110,7 @@ def to_val(x):
         return Val.VTuple(to_vl(x))
     if isinstance(x, SVL):
         return Val.VTuple(x.z)
-    if hasattr(x, "oid_term"):
+    if isinstance(x, HeapRef):
         return Val.VRef(x.oid_term())
     if type(x) is float:
         return Val.VFloat(f64_const(x))
@@ -172,8 +172,8 @@ def truth(x):
         return x.z != VL.nil
     if isinstance(x, Sym):
         raise Unsupported("truth of %r" % (x,))
-    if hasattr(x, "truth"):
-        return x.truth()
+    if isinstance(x, HeapRef):
+        return True
     return bool(x)
 
 
@@ -214,7 +214,7 @@ def binop(op, a, b):
     """returns (value, errs)"""
     import ast
     errs = []
-    concrete = not is_sym(a) and not is_sym(b) and not hasattr(a, "oid_term") and not hasattr(b, "oid_term")
+    concrete = not is_sym(a) and not is_sym(b) and not isinstance(a, HeapRef) and not isinstance(b, HeapRef)
     if concrete and not isinstance(a, tuple) and not isinstance(b, tuple):
         try:
             import operator
@@ -268,7 +268,7 @@ def same_kind_seq(a, b):
 
 def eq(a, b):
     """Python == as python bool / z3 Bool.  Exact for the value kinds modelled."""
-    if not is_sym(a) and not is_sym(b) and not hasattr(a, "oid_term") and not hasattr(b, "oid_term"):
+    if not is_sym(a) and not is_sym(b) and not isinstance(a, HeapRef) and not isinstance(b, HeapRef):
         if isinstance(a, tuple) and isinstance(b, tuple):
             if len(a) != len(b):
                 return False
@@ -277,13 +277,13 @@ def eq(a, b):
             return bool(a == b)
         except Exception:
             raise Unsupported("== on %r %r" % (a, b))
-    if getattr(a, "kind", None) == "type" or getattr(b, "kind", None) == "type":
+    if (isinstance(a, Sym) and a.kind == "type") or (isinstance(b, Sym) and b.kind == "type"):
         return type_identical(a, b)
     if isinstance(a, SVal) or isinstance(b, SVal):
         if isinstance(a, SVal) and isinstance(b, SVal):
             return val_eq(a.z, b.z)
         s, o = (a, b) if isinstance(a, SVal) else (b, a)
-        if hasattr(o, "oid_term") and not hasattr(o, "cls_plain"):
+        if isinstance(o, HeapRef) :
             return z3.And(Val.is_VRef(s.z), Val.oid(s.z) == o.oid_term())
         return val_eq(s.z, to_val(o))
     if is_intlike(a) and is_intlike(b):
@@ -302,7 +302,7 @@ def eq(a, b):
         return a.z == to_vl(b)
     if isinstance(b, Sym) and b.kind == "vl" and isinstance(a, tuple):
         return b.z == to_vl(a)
-    if hasattr(a, "oid_term") and hasattr(b, "oid_term"):
+    if isinstance(a, HeapRef) and isinstance(b, HeapRef):
         return a.oid_term() == b.oid_term()
     # values of different kinds are unequal (int vs bytes, None vs int, ...)
     return False
@@ -358,8 +358,8 @@ SINGLETONS = (None, True, False, NotImplemented, Ellipsis)
 
 def type_identical(a, b):
     """identity of two type objects, at least one of them the symbolic type(x) of a dynamic value"""
-    ta = a.z if getattr(a, "kind", None) == "type" else (z3.IntVal(type_id(a)) if isinstance(a, type) else None)
-    tb = b.z if getattr(b, "kind", None) == "type" else (z3.IntVal(type_id(b)) if isinstance(b, type) else None)
+    ta = a.z if (isinstance(a, Sym) and a.kind == "type") else (z3.IntVal(type_id(a)) if isinstance(a, type) else None)
+    tb = b.z if (isinstance(b, Sym) and b.kind == "type") else (z3.IntVal(type_id(b)) if isinstance(b, type) else None)
     if ta is None or tb is None:
         return False
     return ta == tb
@@ -367,14 +367,14 @@ def type_identical(a, b):
 
 def identical(a, b):
     """Python `is` for the cases the subset allows: singletons, classes, heap objects"""
-    if getattr(a, "kind", None) == "type" or getattr(b, "kind", None) == "type":
+    if (isinstance(a, Sym) and a.kind == "type") or (isinstance(b, Sym) and b.kind == "type"):
         return type_identical(a, b)
     if not is_sym(a) and not is_sym(b):
-        if hasattr(a, "oid_term") and hasattr(b, "oid_term"):
+        if isinstance(a, HeapRef) and isinstance(b, HeapRef):
             return z3.simplify(a.oid_term() == b.oid_term())
-        if hasattr(a, "oid_term") or hasattr(b, "oid_term"):
-            o, c = (a, b) if hasattr(a, "oid_term") else (b, a)
-            if hasattr(o, "identical_const"):
+        if isinstance(a, HeapRef) or isinstance(b, HeapRef):
+            o, c = (a, b) if isinstance(a, HeapRef) else (b, a)
+            if False:
                 return o.identical_const(c)
             return False
         if isinstance(a, tuple) or isinstance(b, tuple):
@@ -394,7 +394,7 @@ def identical(a, b):
             return z3.And(Val.is_VBool(s.z), Val.vb(s.z))
         if o is False:
             return z3.And(Val.is_VBool(s.z), z3.Not(Val.vb(s.z)))
-        if hasattr(o, "oid_term"):
+        if isinstance(o, HeapRef):
             return z3.And(Val.is_VRef(s.z), Val.oid(s.z) == o.oid_term())
         if isinstance(o, SVal):
             # identity of two dynamic values: same heap object, or the same singleton
@@ -437,14 +437,14 @@ def int_set_cond(x, ints):
 
 def contains(coll, x):
     """x in coll"""
-    if not is_sym(coll) and not is_sym(x) and not hasattr(coll, "oid_term") and not hasattr(x, "oid_term"):
-        if isinstance(coll, (tuple, list)) and any(is_sym(c) or hasattr(c, "oid_term") for c in coll):
+    if not is_sym(coll) and not is_sym(x) and not isinstance(coll, HeapRef) and not isinstance(x, HeapRef):
+        if isinstance(coll, (tuple, list)) and any(is_sym(c) or isinstance(c, HeapRef) for c in coll):
             return z3.Or([_z(eq(x, c)) for c in coll])
         try:
             return x in coll
         except TypeError:
             raise Unsupported("in on %r" % (coll,))
-    if hasattr(coll, "contains"):
+    if (isinstance(coll, HeapRef) and hasattr(coll, "contains")):
         return coll.contains(x)
     if isinstance(coll, (dict, set, frozenset, tuple, list)):
         keys = list(coll)
